@@ -1,4 +1,5 @@
 /- Driver/Search.lean — line-protocol operations over Model/Search and Spec/Neighbours. -/
+import Prs.Model.Radius
 import Prs.Driver.Json
 import Prs.Spec.Neighbours
 import Prs.Model.Neighbors
@@ -127,6 +128,18 @@ def opSearch (op : String) (j : Json) : Option (R Json) :=
       let nb := if mode == "ham" then hamNeighbors A else levNeighbors A
       let (cd, keep) ← mkCd j
       pure (jTrips (lookupDB nb cd keep (← bool j "pdist") (← strList j "ref") (← strList j "qs") (← nat j "k")))
+  | "radius" => some do
+      -- the radius computed for max_edits = k: its bits, the bits of r·r, and whether the boundary 2k² is covered
+      let k ← nat j "k"
+      let r := radius k
+      pure (Json.mkObj [("r_bits", Json.str (toString r.toBits.toNat)), ("rr_bits", Json.str (toString (r * r).toBits.toNat)),
+        ("covers", Json.bool (radiusCovers k))])
+  | "in_ball" => some do
+      -- SciPy's comparison for an arbitrary radius given by its bit pattern (decimal string)
+      let rb ← str j "r_bits"
+      match rb.toNat? with
+      | some b => pure (Json.bool (inBall (Float.ofBits b.toUInt64) (← nat j "sq")))
+      | none => throw "r_bits: decimal string expected"
   | "hist_encode" => some do
       pure (jOpt (jList jNat) (histEncode (← alphabetOf j) (← nat j "c") (← chars j "s")))
   | "ball_query" => some do
